@@ -174,7 +174,7 @@ func registerC02() {
 		Rule: "model streams: PRNG-determined plans (file type cycles over the 17 containers; definitions = random subsets/permutations of profile fields with compatible " +
 			"definition types incl. narrower integer types, over-long arrays and strings, both byte orders, interleaved unknown fields/messages/developer fields) and the device " +
 			"corpus parsed by the independent grammar parser; family large: streams of 300-2500 records (10-120 KB) so that every kind of field, " +
-			"definition and skipped block straddles the decoder's 4096-byte buffer refills at all alignments, read through short-reading chunkers; a case is non-trivial when Decode accepted it and at least one known field was compared against the model; distinct by stream digest",
+			"definition and skipped block straddles the decoder's 4096-byte buffer refills at all alignments, read through short-reading chunkers; family order-pairs: for every scalar profile field (time fields are C12's) and every base type byte and size 1..8 the same integer is written once little endian and once big endian (bytes reversed): both are rejected, or both decode to the same message; a case is non-trivial when Decode accepted it and at least one known field was compared against the model; distinct by stream digest",
 		Assume: []string{
 			"which struct field a (message, field number) pair lands in is taken from the hook table (its correctness is C15's subject)",
 			"narrow definitions never carry the narrow type's own invalid value (its meaning is not defined by the statement)",
@@ -186,6 +186,7 @@ func registerC02() {
 			{Name: "model", N: func(t string) uint64 { return tierN(t, 160000, 3000000) }, Run: c02Model},
 			{Name: "device", N: func(t string) uint64 { return uint64(len(Corpus())) }, Run: c02Device},
 			{Name: "large", N: func(t string) uint64 { return tierN(t, 1500, 60000) }, Run: c02Large},
+			{Name: "order-pairs", N: func(t string) uint64 { return uint64(len(orderPairFields(false))) }, Run: func(c *lib.Ctx, idx uint64) { orderPairs(c, orderPairFields(false)[idx]) }},
 		},
 		Finish: func(c *lib.Ctx, cov map[string]interface{}) {
 			fields, total := 0, 0
@@ -444,4 +445,117 @@ func c02Large(c *lib.Ctx, idx uint64) {
 	countPlanCoverage(c, plan, "large_")
 	c.Count("large_stream_bytes", int64(len(b)))
 	c.Nontrivial(b)
+}
+
+var orderPairCache [2][]*ref.PField
+
+// orderPairFields: the scalar (non-array, non-string) profile fields of hosted messages; time
+// kinds if timeKinds, all others if not.
+func orderPairFields(timeKinds bool) []*ref.PField {
+	k := 0
+	if timeKinds {
+		k = 1
+	}
+	if orderPairCache[k] != nil {
+		return orderPairCache[k]
+	}
+	prof := lib.Profile()
+	for _, pf := range prof.Fields {
+		if pf.Array || ref.BaseTypes[pf.Base].Code == 0x07 || pf.Mesg == 0 {
+			continue
+		}
+		isTime := pf.Kind == ref.KTimeUTC || pf.Kind == ref.KTimeLocal
+		if isTime != timeKinds {
+			continue
+		}
+		hosted := false
+		for _, ft := range lib.FileTypes {
+			if prof.Hosted(ft.Type, pf.Mesg) {
+				hosted = true
+			}
+		}
+		if hosted {
+			orderPairCache[k] = append(orderPairCache[k], pf)
+		}
+	}
+	return orderPairCache[k]
+}
+
+// orderPairs: "under the definition's byte order": for field pf, every base type byte and size
+// 1..8, one stream carries an integer little endian and its twin carries the same integer big
+// endian (the field's bytes reversed, definition marked big endian). Whatever the decoder makes
+// of a definition (single element, several elements of a narrower type, narrower or wider than
+// the profile type): it must reject both or decode both to the same message. For time fields a
+// record with a compressed timestamp header follows, so that the reference the field leaves
+// behind is compared as well.
+func orderPairs(c *lib.Ctx, pf *ref.PField) {
+	prof := lib.Profile()
+	ft := byte(4)
+	for _, t := range lib.FileTypes {
+		if prof.Hosted(t.Type, pf.Mesg) {
+			ft = t.Type
+			break
+		}
+	}
+	patterns := [][]byte{{0x11, 0x22, 0x33, 0x44, 0x55, 0x66, 0x77, 0x08}, {0x80, 0x01, 0xFE, 0x7F, 0x00, 0xFF, 0x10, 0x81}, {0x3B, 0x9A, 0xCA, 0x01, 0, 0, 0, 0}}
+	for _, bt := range ref.BaseTypes {
+		for size := 1; size <= 8; size++ {
+			if size%bt.Size != 0 {
+				continue
+			}
+			if size != bt.Size && pf.Kind == ref.KNative {
+				// several elements of a narrower type for a plain scalar: what the wire bytes
+				// "denote" then is not defined by the statement (the library keeps the first
+				// element); only time and coordinate fields, which the decoder assembles from all
+				// bytes of the field, are compared for multi-element definitions
+				continue
+			}
+			for pi, pat := range patterns {
+				var got [2]*lib.Content
+				var errs [2]error
+				for arch := byte(0); arch < 2; arch++ {
+					data := append([]byte{}, pat[:size]...)
+					if arch == 1 {
+						for i, j := 0, len(data)-1; i < j; i, j = i+1, j-1 {
+							data[i], data[j] = data[j], data[i]
+						}
+					}
+					plan := &ref.Plan{HeaderSize: 14, Proto: 0x20, ProfVer: 2115}
+					plan.Records = append(plan.Records,
+						ref.Record{IsDef: true, Local: 0, Global: 0, Fields: []ref.FieldDef{{Num: 0, Size: 1, Base: 0}}},
+						ref.Record{Local: 0, Data: [][]byte{{ft}}},
+						ref.Record{IsDef: true, Local: 1, Arch: arch, Global: pf.Mesg, Fields: []ref.FieldDef{{Num: pf.Num, Size: byte(size), Base: bt.Code}}},
+						ref.Record{Local: 1, Data: [][]byte{data}},
+						ref.Record{IsDef: true, Local: 2, Arch: arch, Global: pf.Mesg},
+						ref.Record{Local: 2, Compressed: true, TimeOffset: 9})
+					b := plan.Bytes()
+					c.SetInflight(b)
+					f, derr, o := lib.GuardedDecode(b)
+					c.Eval()
+					if o.Panicked || o.Hang {
+						c.Violation(b, "message %d field %d defined as %s size %d arch %d: Decode panicked/hung: %s", pf.Mesg, pf.Num, bt.Name, size, arch, o.Panic)
+						return
+					}
+					errs[arch] = derr
+					if derr == nil {
+						got[arch] = lib.FileContent(f)
+					}
+				}
+				if (errs[0] == nil) != (errs[1] == nil) {
+					c.Violation(nil, "message %d field %d defined as %s size %d (pattern %d): accepted in one byte order, rejected in the other (little endian: %v, big endian: %v)", pf.Mesg, pf.Num, bt.Name, size, pi, errs[0], errs[1])
+					return
+				}
+				if errs[0] != nil {
+					c.Count("order_pairs_rejected_in_both_orders", 1)
+					continue
+				}
+				if diffs := lib.CompareContent(got[0], got[1], lib.CompareOpts{}); len(diffs) > 0 {
+					c.Violation(nil, "message %d field %d defined as %s size %d: the same integer (bytes % x little endian, reversed big endian) decodes differently in the two byte orders: %s", pf.Mesg, pf.Num, bt.Name, size, pat[:size], lib.DiffsString(diffs, 3))
+					return
+				}
+				c.Count("order_pairs_equal", 1)
+			}
+		}
+	}
+	c.Nontrivial([]byte(fmt.Sprintf("order-pairs %d.%d", pf.Mesg, pf.Num)))
 }
